@@ -20,7 +20,11 @@ Direct oracle (written from the property text, shares nothing with the Lean mode
   (e) sort orders by value and permutes.
 A violation is attributed to the operation that turns a state satisfying (a) into one that does not (or
 that raises from such a state); its signature names that operation and the kind of failure, so a different
-root cause gets a different signature.
+root cause gets a different signature.  The seven defects repaired upstream (fix: commits 98630c1, 99d9853,
+0225de2) keep their signatures — C13:setitem-stale-best, C13:delitem-stale-best, C13:slice-assign-stale-best,
+C13:slice-delete-stale-best, C13:extend-with-empty-AnnealResults, C13:iadd-with-empty-AnnealResults,
+C13:rmul-returns-plain-list — so a relapse is reported under the same name; their minimal histories are the
+regression inputs corpus/C13/*.json (run first on every check).
 """
 import json
 from fractions import Fraction
@@ -28,7 +32,7 @@ from . import common
 from .common import exc_name
 
 CEXT = "plain"
-RULE = ("operation histories on AnnealResults: all sequences of length <=3 over a 54-operation alphabet (thorough: "
+RULE = ("operation histories on AnnealResults: all sequences of length <=3 over a 61-operation alphabet (thorough: "
         "also length <=4 over its 35-operation core) from 5 initial collections (<=3 results, duplicated values, empty operands), plus "
         "random sequences of length <=15 with random operands; a history is non-trivial when some step changes "
         "the best value / emptiness or raises; distinct = distinct (initial collection, sequence) JSON")
@@ -81,6 +85,10 @@ EXTRA = [
     {"o": "sort", "rev": True}, {"o": "reverse"},
     {"o": "filter_states", "f": "has", "k": 0, "v": 1}, {"o": "convert_states", "f": "relabel", "k": 1},
     {"o": "to_boolean"}, {"o": "to_spin"}, {"o": "construct", "l": [B, Z]}, {"o": "mul", "i": -1},
+    {"o": "mul", "i": 0}, {"o": "rmul", "i": 0}, {"o": "rmul", "i": -1},
+    # one-shot iterables (generators) as operands: a plain list consumes them exactly once
+    {"o": "extend_iter", "l": [Z, B]}, {"o": "iadd_iter", "l": [B, Z]}, {"o": "extend_iter", "l": []},
+    {"o": "setslice_iter", "sl": sl(1, None), "l": [Z]},
 ]
 
 # ------------------------------------------------------------------ implementation side
@@ -166,7 +174,7 @@ def pyslice(s):
 
 MUTATORS = {"append", "add_state", "insert", "remove", "pop", "extend_list", "extend_ar", "extend_self",
             "extend_aux", "iadd_list", "iadd_ar", "iadd_self", "iadd_aux", "setitem", "delitem", "setslice",
-            "delslice", "clear", "sort", "reverse"}
+            "delslice", "clear", "sort", "reverse", "extend_iter", "iadd_iter", "setslice_iter"}
 DERIVED = {"construct", "add", "add_aux", "mul", "imul", "rmul", "getslice", "copy", "filter", "filter_states",
            "apply_function", "convert_states", "to_boolean", "to_spin"}
 NO_LIST_COUNTERPART = {"filter", "filter_states", "apply_function", "convert_states", "to_boolean", "to_spin",
@@ -192,6 +200,12 @@ def call(I, op, cur, aux):
         return cur, aux, cur[op["i"]], None
     if o == "extend_list":
         cur.extend(I.mkl(op["l"])); return cur, aux, None, None
+    if o == "extend_iter":
+        cur.extend(x for x in I.mkl(op["l"])); return cur, aux, None, None
+    if o == "iadd_iter":
+        c0 = cur; cur += (x for x in I.mkl(op["l"])); assert cur is c0; return cur, aux, None, None
+    if o == "setslice_iter":
+        cur[pyslice(op["sl"])] = (x for x in I.mkl(op["l"])); return cur, aux, None, None
     if o == "extend_ar":
         cur.extend(I.AR(I.mkl(op["l"]))); return cur, aux, None, None
     if o == "extend_self":
@@ -265,6 +279,9 @@ def shadow_raises(I, op, items, aux_items):
         elif o == "insert": l.insert(op["i"], I.mk(op["r"]))
         elif o == "append": l.append(I.mk(op["r"]))
         elif o in ("extend_list", "extend_ar"): l.extend(I.mkl(op["l"]))
+        elif o == "extend_iter": l.extend(x for x in I.mkl(op["l"]))
+        elif o == "iadd_iter": l += (x for x in I.mkl(op["l"]))
+        elif o == "setslice_iter": l[pyslice(op["sl"])] = (x for x in I.mkl(op["l"]))
         elif o == "extend_self": l.extend(l)
         elif o == "extend_aux": l.extend(list(aux_items))
         elif o in ("iadd_list", "iadd_ar"): l += I.mkl(op["l"])
@@ -347,7 +364,8 @@ def opclass(o):
     return {"extend_ar": "extend", "extend_self": "extend", "extend_aux": "extend", "extend_list": "extend-list",
             "iadd_ar": "iadd", "iadd_self": "iadd", "iadd_aux": "iadd", "iadd_list": "iadd-list",
             "setslice": "slice-assign", "delslice": "slice-delete", "getslice": "slicing",
-            "add_aux": "add"}.get(o, o)
+            "extend_iter": "extend-iterator", "iadd_iter": "iadd-iterator", "setslice_iter": "slice-assign",
+            "add_aux": "add", "imul": "mul"}.get(o, o)      # `res *= n` resolves to AnnealResults.__mul__
 
 def step_impl(I, op, cur, aux, pre_ok):
     """one step on the real objects.  Returns (cur', aux', observation string, [(signature, why)], post_ok)"""
@@ -438,50 +456,16 @@ def conv_fail(o, items0, derived):
             return "conversions are not mutually inverse on %s" % (t.state,)
     return None
 
-# ------------------------------------------------------------------ refinement: which minimal element is `best` is left open
+# ------------------------------------------------------------------ comparison
 #
-# In a state satisfying clause (a) the observation (best value, best in items) does not depend on which of
-# several minimal elements the code picked.  After one of the inherited mutators that do not maintain `best`
-# (item / slice assignment and deletion) it does.  A collection is "tainted" from such a call until it is
-# rebuilt (derived collection, clear); for a tainted collection a mismatch is re-compared with the `best`
-# fields masked (the items and the outcome are still compared exactly); if that agrees, model and code sit in
-# different, equally legitimate stale states and the rest of that history is not compared (the direct oracle
-# still runs on it).
+# Which of several minimal elements is `best` is left open by the property.  The compared observation (best
+# value, best in items, emptiness) does not depend on that choice in any state satisfying clause (a), and with
+# the code as it is (model table `Impl.fixed`) every reachable state does (theorem inv_sequence) — so the
+# observations are compared exactly.  (Before the upstream fix, stale states made the choice observable and a
+# masked re-comparison was used for them; it is gone.)
 
-def taint_step(op, obs, tc, ta):
-    o = op["o"]
-    if not obs.startswith("ok"):
-        return tc, ta
-    if o in ("setitem", "delitem", "setslice", "delslice"):
-        return True, ta
-    if o in DERIVED or o == "clear":
-        return False, ta
-    if o in ("extend_aux", "iadd_aux"):
-        return tc or ta, ta
-    if o == "swap":
-        return ta, tc
-    if o == "stash":
-        return tc, False
-    return tc, ta
-
-def mask(obs, tc, ta):
-    f = obs.split("#")
-    if len(f) != 5:
-        return obs
-    for idx, t in ((2, tc), (3, ta)):
-        if t:
-            items, b, _ = f[idx].rsplit("|", 2)
-            f[idx] = "%s|?|?" % items
-    return "#".join(f)
-
-def same_obs(ctx, impl, model, tc, ta):
-    """True: equal.  False: a difference.  None: equal up to the choice of `best` in a stale state."""
-    if impl == model:
-        return True
-    if (tc or ta) and isinstance(model, str) and mask(impl, tc, ta) == mask(model, tc, ta):
-        ctx.count("refinement:choice-of-minimal-element-in-stale-state")
-        return None
-    return False
+def same_obs(ctx, impl, model):
+    return impl == model
 
 # ------------------------------------------------------------------ running whole sequences
 
@@ -528,6 +512,9 @@ def pycode(case):
             "getitem": lambda: "res[%d]" % op["i"],
             "extend_list": lambda: "res.extend(%s)" % L(op["l"]),
             "extend_ar": lambda: "res.extend(AnnealResults(%s))" % L(op["l"]),
+            "extend_iter": lambda: "res.extend(x for x in %s)" % L(op["l"]),
+            "iadd_iter": lambda: "res += (x for x in %s)" % L(op["l"]),
+            "setslice_iter": lambda: "res[%s] = (x for x in %s)" % (SL(op["sl"]), L(op["l"])),
             "extend_self": lambda: "res.extend(res)",
             "extend_aux": lambda: "res.extend(aux)",
             "iadd_list": lambda: "res += %s" % L(op["l"]),
@@ -627,13 +614,9 @@ def process_seqs(ctx, I, cases, finder, family="seq"):
         if ms is None or len(ms) != len(obs):
             ctx.diff(family, c, obs, m)
         else:
-            tc = ta = False
             for k, (x, y) in enumerate(zip(obs, ms)):
-                tc, ta = taint_step(c["seq"][k], x, tc, ta)
-                eq = same_obs(ctx, x, y, tc, ta)
-                if eq is False:
+                if not same_obs(ctx, x, y):
                     ctx.diff(family, dict(c, seq=c["seq"][:k + 1]), x, y)
-                if not eq:
                     break
         for k, sig, why in bad:
             finder.add(sig, dict(c, seq=c["seq"][:k + 1]), why)
@@ -656,15 +639,14 @@ def explore(ctx, I, finder, init, aux, prefix, alphabet, depth):
     ndiff = [0]
     path = list(prefix)
 
-    def walk(cur, auxc, ok, d, tc, ta, compare=True):
+    def walk(cur, auxc, ok, d, compare=True):
         for op in alphabet:
             c2, a2 = I.clone(cur), I.clone(auxc)
             c2, a2, s, bad, ok2 = step_impl(I, op, c2, a2, ok)
             path.append(op)
             i = pos[0]; pos[0] += 1
             ctx.evaluations += 1
-            tc2, ta2 = taint_step(op, s, tc, ta)
-            eq = (i < len(nodes) and same_obs(ctx, s, nodes[i], tc2, ta2)) if compare else None
+            eq = (i < len(nodes) and same_obs(ctx, s, nodes[i])) if compare else None
             if eq is False:
                 ndiff[0] += 1
                 if ndiff[0] <= 20:
@@ -672,12 +654,9 @@ def explore(ctx, I, finder, init, aux, prefix, alphabet, depth):
             for sig, why in bad:
                 finder.add(sig, {"init": init, "aux": aux, "seq": list(path)}, why)
             if d > 1:
-                walk(c2, a2, ok2, d - 1, tc2, ta2, compare and eq is True)
+                walk(c2, a2, ok2, d - 1, compare and eq is True)   # below a difference the states differ anyway
             path.pop()
-    tc = ta = False
-    for op, o in zip(prefix, pre_obs):
-        tc, ta = taint_step(op, o, tc, ta)
-    walk(cur, auxc, ok, depth, tc, ta)
+    walk(cur, auxc, ok, depth)
     if pos[0] != len(nodes):
         ctx.diff("tree", {"init": init, "aux": aux, "prefix": prefix}, pos[0], len(nodes))
     ctx.traces += pos[0]
@@ -719,7 +698,7 @@ def gen_op(rng, ill, recent):
         "iadd_self", "iadd_aux", "add", "add_aux", "mul", "imul", "rmul", "getslice", "getslice", "setitem", "setitem",
         "delitem", "delitem", "setslice", "setslice", "delslice", "delslice", "clear", "sort", "sort", "reverse",
         "copy", "filter", "filter_states", "apply_function", "convert_states", "to_boolean", "to_spin", "swap",
-        "stash", "construct"])
+        "stash", "construct", "extend_iter", "iadd_iter", "setslice_iter"])
     op = {"o": o}
     if o in ("append", "add_state", "insert", "remove", "setitem"):
         op["r"] = res()
@@ -727,11 +706,12 @@ def gen_op(rng, ill, recent):
         op["i"] = rng.randint(-4, 4)
     if o in ("mul", "imul", "rmul"):
         op["i"] = rng.choice([-1, 0, 0, 1, 2, 2, 3])
-    if o in ("extend_list", "extend_ar", "iadd_list", "iadd_ar", "add", "setslice", "construct"):
+    if o in ("extend_list", "extend_ar", "iadd_list", "iadd_ar", "add", "setslice", "construct", "extend_iter",
+             "iadd_iter", "setslice_iter"):
         op["l"] = gen_list(rng, ill, 0, 3); recent.extend(op["l"])
     if o == "add":
         op["plain"] = rng.random() < 0.5
-    if o in ("getslice", "setslice", "delslice"):
+    if o in ("getslice", "setslice", "delslice", "setslice_iter"):
         op["sl"] = gen_slice(rng)
     if o == "sort":
         op["rev"] = rng.random() < 0.3
